@@ -97,7 +97,13 @@ Cat ==
   ("external_instance_twice" :> M({}, "form", FALSE, "ident")) @@
   ("search_list_shared"      :> M({"sel1"}, "survey", FALSE, "ident")) @@
   ("loop_without_list"       :> M({}, "form", FALSE, "kind")) @@
-  ("choice_extra_column_translated" :> M({}, "form", FALSE, "ident"))
+  ("choice_extra_column_translated" :> M({}, "form", FALSE, "ident")) @@
+  \* user text in XML name positions / text XML cannot represent (rejected by the writer)
+  ("choices_header_not_a_name"  :> M({}, "form", FALSE, "ident")) @@
+  ("bind_suffix_not_a_name"     :> M(Q, "survey", FALSE, "ident")) @@
+  ("bind_suffix_undeclared_prefix" :> M(Q, "survey", FALSE, "ident")) @@
+  ("settings_attribute_not_a_name" :> M({}, "form", FALSE, "ident")) @@
+  ("label_with_control_character"  :> M(Visible, "survey", FALSE, "kind"))
 Muts == DOMAIN Cat
 
 \* an end row qualifies as top-level when it closes a top-level section (depth 1 in front of it)
